@@ -17,6 +17,9 @@ for item in "${TABLE[@]}"; do
      echo "$c $p REVERT-CONFLICT"; git -C /repo revert --abort >/dev/null 2>&1; git -C /repo reset -q --hard; continue
   fi
   git -C /repo reset -q   # keep the change in the working tree only
+  # fresh scratch root per row: the known findings are honoured, the regression corpus is NOT copied, so
+  # the generated campaign alone has to rediscover the defect
+  rm -rf /tmp/vr_sens; mkdir -p /tmp/vr_sens; cp known_findings.json /tmp/vr_sens/
   out=$(./check "$p" --tier quick --root /tmp/vr_sens 2>&1); rc=$?
   sig=$(echo "$out" | grep -m1 "^violation" | cut -c1-220)
   echo "$c $p exit=$rc :: $sig"
